@@ -1200,6 +1200,69 @@ fn main() {
                 None => println!("result=open-failed"),
             }
         }
+        // table_edge_keys : tables holding the empty user key, one-byte keys and a key of 0xff bytes; every stored key is looked up
+        "table_edge_keys" => {
+            let mut missing = vec![];
+            for block in [64usize, 256, 4096] {
+                let fs = std::sync::Arc::new(raindb::fs::InMemoryFileSystem::new());
+                let o = v::options_with(fs, block);
+                let keys: Vec<Vec<u8>> = vec![vec![], vec![0], vec![0, 0], b"a".to_vec(), b"a".to_vec(), b"b".to_vec(), vec![0xff], vec![0xff, 0xff]];
+                let mut seq = 20u64;
+                let owned: Vec<(Vec<u8>, u64, bool, Vec<u8>)> = keys.iter().map(|k| { seq -= 1; (k.clone(), seq, true, vec![seq as u8; 40]) }).collect();
+                let ents: Vec<(&[u8], u64, bool, &[u8])> = owned.iter().map(|e| (e.0.as_slice(), e.1, e.2, e.3.as_slice())).collect();
+                if !v::table_build(&o, &ents) {
+                    println!("result=build-failed");
+                    return;
+                }
+                for e in &owned {
+                    let (code, val) = v::table_get(&o, &e.0, e.1);
+                    if code != 0 || val != e.3 {
+                        missing.push(format!("{}@{}(block {})", tohex(&e.0), e.1, block));
+                    }
+                }
+            }
+            println!("missing={}", missing.len());
+            println!("first_missing={}", missing.first().cloned().unwrap_or_default());
+        }
+        // l0_stop_release : level 0 is at the stop-writes trigger and the memtable is full; a writer parks; the background
+        // compaction then drains level 0. Is the writer released? (the driver applies a watchdog)
+        "l0_stop_release" => {
+            use raindb::WriteOptions;
+            let mut o = raindb::DbOptions::with_memory_env();
+            o.db_path = "db".to_string();
+            o.create_if_missing = true;
+            o.max_memtable_size = 64 * 1024;
+            let db = std::sync::Arc::new(raindb::DB::open(o).expect("open"));
+            db.hold_background_for_verif(true);
+            let mut round = 0;
+            while db.num_level_zero_files_for_verif() < 12 && round < 40 {
+                db.put(WriteOptions::default(), b"a".to_vec(), format!("begin{}", round).into_bytes()).unwrap();
+                db.put(WriteOptions::default(), b"z".to_vec(), format!("end{}", round).into_bytes()).unwrap();
+                db.flush_to_level_zero_for_verif();
+                round += 1;
+            }
+            println!("level0_files={}", db.num_level_zero_files_for_verif());
+            db.put(WriteOptions::default(), b"m".to_vec(), vec![7u8; 80 * 1024]).unwrap();
+            db.hold_background_for_verif(false);
+            let (tx, rx) = std::sync::mpsc::channel();
+            let db2 = std::sync::Arc::clone(&db);
+            std::thread::spawn(move || {
+                let r = db2.put(WriteOptions::default(), b"n".to_vec(), b"late".to_vec());
+                let _ = tx.send(r.is_ok());
+            });
+            std::thread::sleep(std::time::Duration::from_millis(500));
+            println!("parked={}", rx.try_recv().is_err());
+            println!("scheduled={}", db.schedule_compaction_for_verif());
+            match rx.recv_timeout(std::time::Duration::from_secs(15)) {
+                Ok(ok) => println!("writer={}", if ok { "released" } else { "error" }),
+                Err(_) => {
+                    println!("writer=stuck");
+                    println!("level0_files_after={}", db.num_level_zero_files_for_verif());
+                    std::process::exit(0);
+                }
+            }
+            println!("level0_files_after={}", db.num_level_zero_files_for_verif());
+        }
         "vs_recover" => {
             // a database is created, written and closed; a fresh version set recovers from its files
             use raindb::WriteOptions;
